@@ -435,6 +435,38 @@ func (r *Runner) execMacro(a Action) {
 		r.exec(Action{Op: "heal"}) // the old request can be delivered now
 		w.Advance(20*time.Millisecond, r.sample)
 		r.feat("stale-installsnapshot-from-a-deposed-leader")
+	case "snapfallback":
+		// a server takes two snapshots a few entries apart (the log between them
+		// survives compaction), stops, and cannot read the newer one when it starts
+		// again: NewRaft falls back to the older snapshot and the log
+		i := r.resolve(a.Srv)
+		in := r.live(i)
+		_, L := r.leader()
+		if in == nil || L == nil || r.P.Trailing == 0 {
+			return
+		}
+		gap := int(min(r.P.Trailing, uint64(1+a.N)))
+		r.doApply(L, 2, 0)
+		w.Advance(30*time.Millisecond, r.sample)
+		r.doSnapshot(in)
+		w.Advance(20*time.Millisecond, r.sample)
+		r.doApply(L, gap, 0)
+		w.Advance(30*time.Millisecond, r.sample)
+		r.doSnapshot(in)
+		w.Advance(20*time.Millisecond, r.sample)
+		if a.Arg == 1 {
+			r.doApply(L, 2, 0)
+			w.Advance(20*time.Millisecond, r.sample)
+		}
+		in.Crash()
+		r.reapDead()
+		r.spoilNewestSnapshot(i)
+		r.restart(i)
+		w.Advance(30*time.Millisecond, r.sample)
+		if _, L2 := r.leader(); L2 != nil {
+			r.doApply(L2, 2, 0)
+		}
+		w.Advance(50*time.Millisecond, r.sample)
 	case "busydisk":
 		// the leader's disk is slow for a moment: its main thread sits in StoreLogs
 		// while its followers acknowledge what it wrote before; a membership
